@@ -39,6 +39,7 @@ type c08Case struct {
 	Evil           bool     `json:"evil"`            // an unauthorised functionary offers a sublayout whose inspection writes a marker
 	ParentMismatch bool     `json:"parent_mismatch"` // the parent of the first sublayout step REQUIREs a product the sublayout does not deliver
 	ParentForbids  bool     `json:"parent_forbids"`  // the parent DISALLOWs an artifact that only exists inside the sublayout (must still accept)
+	CertSub        bool     `json:"cert_sub"`        // legacy wrapper: one functionary of the first root-level sublayout step is authorised by certificate
 }
 
 var c08LeafDefects = []string{"missing-link", "forged-link", "tampered-link", "rule-violation", "threshold"}
@@ -104,6 +105,7 @@ func c08Gen(t *rapid.T) c08Case {
 	depth := rapid.IntRange(1, 2).Draw(t, "depth")
 	c.Root = c08GenLevel(t, depth, "", true)
 	c.Evil = rapid.IntRange(0, 2).Draw(t, "evil") == 0
+	c.CertSub = c.Wrapper == "legacy" && rapid.IntRange(0, 2).Draw(t, "certsub") == 0
 	switch rapid.IntRange(0, 9).Draw(t, "variant") {
 	case 0:
 		c.ParentMismatch = true
@@ -138,11 +140,24 @@ type c08Builder struct {
 	log     []string // expected inspection log order (accepting world)
 	evilPut bool
 	firstSub bool
+	certs   map[string]*hx.BuiltCert
+	usedPKI bool
+}
+
+// funcKeyID resolves a functionary name (pool key or "pki:<leaf>") to its key id.
+func (b *c08Builder) funcKeyID(f string) string {
+	if strings.HasPrefix(f, "pki:") {
+		return b.certs[strings.TrimPrefix(f, "pki:")].Key.KeyID
+	}
+	return hx.PoolKey(f).KeyID
 }
 
 func pubKeyIDs(names []string) []string {
-	var out []string
+	out := []string{}
 	for _, n := range names {
+		if strings.HasPrefix(n, "pki:") {
+			continue
+		}
 		out = append(out, hx.PoolKey(n).KeyID)
 	}
 	return out
@@ -159,6 +174,9 @@ func (b *c08Builder) buildLevel(lv c08Level, dir string, isRoot bool) hx.MLayout
 	for _, st := range lv.Steps {
 		ms := hx.MStep{Type: "step", Name: st.Name, PubKeys: pubKeyIDs(st.Functionaries), ExpCommand: []string{}, Threshold: st.Threshold}
 		for _, f := range st.Functionaries {
+			if strings.HasPrefix(f, "pki:") {
+				continue
+			}
 			k := hx.PoolKey(f)
 			lay.Keys[k.KeyID] = hx.MKeyFromLib(k.Pub())
 		}
@@ -219,9 +237,19 @@ func (b *c08Builder) buildLevel(lv c08Level, dir string, isRoot bool) hx.MLayout
 			// a sublayout: every functionary delivers the same sublayout, signed by itself, and the
 			// links of the sublayout's steps in <step>.<keyid8>/
 			var afterSub map[string]string
+			if b.c.CertSub && isRoot && !b.firstSub && b.certs != nil {
+				// one more functionary, authorised by certificate constraint instead of a listed key
+				st.Functionaries = append(append([]string{}, st.Functionaries...), "pki:leaf1")
+				ms.Constraints = []hx.MConstraint{{CommonName: "*", DNSNames: []string{"*"}, Emails: []string{"*"}, Organizations: []string{"*"}, Roots: []string{"*"}, URIs: []string{"*"}}}
+				rk := hx.MKeyFromLib(b.certs["root"].KeyObject())
+				ik := hx.MKeyFromLib(b.certs["inter"].KeyObject())
+				lay.RootCas = hx.MKeys{rk.KeyID: rk}
+				lay.IntermediateCas = hx.MKeys{ik.KeyID: ik}
+				b.usedPKI = true
+			}
 			for fi, f := range st.Functionaries {
-				k := hx.PoolKey(f)
-				subDir := dir + st.Name + "." + k.KeyID[:8] + "/"
+				kid := b.funcKeyID(f)
+				subDir := dir + st.Name + "." + kid[:8] + "/"
 				b.tree = copyFiles(before)
 				nLinksBefore := len(b.links)
 				sub := *st.Sub
@@ -242,16 +270,16 @@ func (b *c08Builder) buildLevel(lv c08Level, dir string, isRoot bool) hx.MLayout
 				}
 				subLay := b.buildLevel(inner, subDir, false)
 				afterSub = copyFiles(b.tree)
-				file := hx.WMetaFile{Name: dir + hx.LinkFileName(st.Name, k.KeyID), Wrapper: b.c.Wrapper, Meta: hx.MMeta{Layout: &subLay}, Sigs: []hx.WSig{{Key: f}}}
+				file := hx.WMetaFile{Name: dir + hx.LinkFileName(st.Name, kid), Wrapper: b.c.Wrapper, Meta: hx.MMeta{Layout: &subLay}, Sigs: []hx.WSig{{Key: f, WithCert: strings.HasPrefix(f, "pki:")}}}
 				if defectHere {
 					switch st.Defect {
 					case "sub-foreign-sig", "sub-bad-sig":
 						// the sublayout file itself does not count (like a missing link): absorbed when the
 						// other functionaries still meet the threshold - failures INSIDE a counted sublayout never are
 						if st.Defect == "sub-foreign-sig" {
-							file.Sigs = []hx.WSig{{Key: "ed25519-3", ClaimID: "pool:" + f}}
+							file.Sigs = []hx.WSig{{Key: "ed25519-3", ClaimID: kid}}
 						} else {
-							file.Sigs = []hx.WSig{{Key: f, Forge: "other-content"}}
+							file.Sigs = []hx.WSig{{Key: f, Forge: "other-content", WithCert: strings.HasPrefix(f, "pki:")}}
 						}
 						if len(st.Functionaries)-1 >= st.Threshold {
 							b.absorbed = append(b.absorbed, st.Defect+"@"+st.Name)
@@ -328,10 +356,21 @@ func c08Run(c c08Case, r *hx.Rec) error {
 		return nil
 	}
 	b := &c08Builder{c: c, tree: map[string]string{"seed.txt": "seed\n"}}
+	if c.CertSub {
+		certs, err := hx.BuildPKI(c02PKI())
+		if err != nil {
+			return fmt.Errorf("harness: %v", err)
+		}
+		b.certs = certs
+	}
 	rootLay := b.buildLevel(c.Root, "", true)
 	w := hx.World{Entry: c.Entry, Links: b.links,
 		Layout:       hx.WMetaFile{Name: "root.layout", Wrapper: c.Wrapper, Meta: hx.MMeta{Layout: &rootLay}, Sigs: []hx.WSig{{Key: "ed25519-2"}}},
 		VerifierKeys: []hx.WKey{{Key: "ed25519-2"}}}
+	if b.usedPKI {
+		w.PKI = c02PKI()
+		r.Label("cert-functionary-sublayout")
+	}
 	for _, p := range sortedFileKeys(b.tree) {
 		w.Product = append(w.Product, hx.WFile{Path: p, Content: b.tree[p]})
 	}
